@@ -187,12 +187,16 @@ C02_Pending(r, stopped) == (~stopped /\ r.cls # "cfg") => (r.live >= 1 \/ r.pend
 \* "unknown": a rule of the URL map the specification does not know), valid = well-formed body for that rule,
 \* etype = message type a successful send must write, wdn/nln/ats = what the requested UPDATE contains.
 NoEffect(r) == r.st = r.pst /\ Quiet(r) /\ r.statsame
+\* the request did not reach the endpoint: method not allowed, or the framework's own answer to OPTIONS (no body)
+NotServed(r) == r.rest.status = 405 \/ (r.rest.method = "OPTIONS" /\ r.rest.status = 200 /\ r.rest.ok = 0 /\ ~r.rest.hasbin)
 C16_Auth(r) ==       \* no valid credentials: 401 (or 405 for a method the rule does not have), nothing revealed, nothing changed
-   (r.cls = "REST" /\ r.rest.cred # "good") => (r.rest.status \in {401, 405} /\ r.rest.ok = 0 /\ ~r.rest.hasbin /\ NoEffect(r))
+   \* (the framework's automatic answer to OPTIONS - 200 with an Allow header and no body - reveals and changes nothing)
+   (r.cls = "REST" /\ r.rest.cred # "good") =>
+      ((r.rest.status \in {401, 405} \/ (r.rest.method = "OPTIONS" /\ r.rest.status = 200)) /\ r.rest.ok = 0 /\ ~r.rest.hasbin /\ NoEffect(r))
 C16_Method(r) ==     \* a method the rule does not offer changes nothing
-   (r.cls = "REST" /\ r.rest.status = 405) => NoEffect(r)
+   (r.cls = "REST" /\ NotServed(r)) => NoEffect(r)
 C16_Gate(r) ==       \* sending (and the other Established-only endpoints) does nothing and reports failure unless Established
-   (r.cls = "REST" /\ r.rest.cred = "good" /\ r.rq.cls \in {"send", "gated"} /\ r.rest.status # 405 /\ r.pst # "ESTABLISHED") =>
+   (r.cls = "REST" /\ r.rest.cred = "good" /\ r.rq.cls \in {"send", "gated"} /\ ~NotServed(r) /\ r.pst # "ESTABLISHED") =>
       (r.rest.ok = 2 /\ ~r.rest.hasbin /\ NoEffect(r))
 C16_Read(r) ==       \* reading endpoints never change anything
    (r.cls = "REST" /\ r.rq.cls \in {"read", "gated"}) => (r.st = r.pst /\ Quiet(r))
@@ -211,7 +215,7 @@ C16_Send(r) ==       \* a send reported successful wrote exactly the requested m
 C16_Fail(r) ==       \* a send reported as failed wrote nothing
    (r.cls = "REST" /\ r.rq.cls = "send" /\ r.rest.ok # 1) => (r.out = <<>> /\ r.st = r.pst)
 C16_ValidSend(r) ==  \* a well-formed send request in Established is carried out
-   (r.cls = "REST" /\ r.rq.cls = "send" /\ r.rq.valid /\ r.rest.cred = "good" /\ r.rest.status # 405 /\ r.pst = "ESTABLISHED") => r.rest.ok = 1
+   (r.cls = "REST" /\ r.rq.cls = "send" /\ r.rq.valid /\ r.rest.cred = "good" /\ ~NotServed(r) /\ r.pst = "ESTABLISHED") => r.rest.ok = 1
 
 \* cooperative continuation (the harness marks its start with a COOP line): Established within one idle-hold period plus
 \* one connection cycle (1 tick of slack), and Established on every later line
